@@ -30,7 +30,11 @@ type c08Replay struct {
 	MkDepth []int           `json:"mk_depth,omitempty"` // Mkdir(A) -> Verify(B) histories: tree A
 	MkNames []string        `json:"mk_names,omitempty"`
 	MkExts  []string        `json:"mk_exts,omitempty"`
+	Extra   string          `json:"extra_options,omitempty"`
 }
+
+// options that do not concern Verify (the massive option only changes how it is done)
+var c08Extras = []string{"json", "yaml", "toml", "noiter", "fmt", "exts", "nil", "massive", "nil,toml,exts", "massive-nil,json"}
 
 // parseVerifyErr extracts the two documented lists, relative to target.
 func parseVerifyErr(msg, target string) (extra, missing []string, ok bool) {
@@ -97,26 +101,42 @@ func c08Case(c *rep.Ctx, r c08Replay) {
 		restore = func() { os.Chdir(wd) }
 	case "slash":
 		target = j.Target + "/"
-	case "dot":
+	case "dot", "dot-given-last":
 		wd, _ := os.Getwd()
 		os.Chdir(j.Target)
 		target = ""
 		restore = func() { os.Chdir(wd) }
 	}
 	opts := []gtree.Option{}
-	if r.Form != "dot" {
-		opts = append(opts, gtree.WithTargetDir(target))
-	} else {
+	switch r.Form {
+	case "dot":
 		target = "."
+	case "dot-given-last":
+		// the option given twice: the later one counts, and an empty string is the current directory
+		opts = append(opts, gtree.WithTargetDir(filepath.Join(j.Root, "sentinel.txt")), gtree.WithTargetDir(""))
+		target = "."
+	case "given-twice":
+		opts = append(opts, gtree.WithTargetDir(""), gtree.WithTargetDir(filepath.Dir(j.Target)), nil, gtree.WithTargetDir(target))
+	default:
+		opts = append(opts, gtree.WithTargetDir(target))
+	}
+	opts = append(opts, extraOpts(r.Extra, "")...)
+	if r.Extra != "" {
+		desc += " extra options=" + r.Extra
 	}
 	if r.Strict {
 		opts = append(opts, gtree.WithStrictVerify())
 	}
 	var err error
-	pan := sut.Guard(func() {
-		if r.Route == "root" {
+	pan := guardMaybeMassive(strings.Contains(r.Extra, "massive"), func() {
+		switch r.Route {
+		case "root":
 			err = gtree.VerifyFromRoot(sut.BuildRoot(f[0]), opts...)
-		} else {
+		case "root-alias":
+			err = gtree.VerifyProgrammably(sut.BuildRoot(f[0]), opts...)
+		case "md-alias":
+			err = gtree.Verify(strings.NewReader(enum.Spell(r.Depth, r.Names, enum.Canonical)), opts...)
+		default:
 			err = gtree.VerifyFromMarkdown(strings.NewReader(enum.Spell(r.Depth, r.Names, enum.Canonical)), opts...)
 		}
 	})
@@ -315,8 +335,30 @@ func init() {
 							}
 						}
 						if c.R.States%7 == 0 {
-							for _, form := range []string{"rel", "slash", "dot"} {
+							for _, form := range []string{"rel", "slash", "dot", "dot-given-last", "given-twice"} {
 								c08Case(c, c08Replay{Kind: "c08", Depth: d, Names: names, State: st, Strict: true, Form: form, Route: "md"})
+							}
+							// the deprecated aliases take the same options
+							c08Case(c, c08Replay{Kind: "c08", Depth: d, Names: names, State: st, Strict: true, Form: "abs", Route: "md-alias"})
+							c08Case(c, c08Replay{Kind: "c08", Depth: d, Names: names, State: st, Strict: false, Form: "dot", Route: "md-alias"})
+							if roots == 1 {
+								c08Case(c, c08Replay{Kind: "c08", Depth: d, Names: names, State: st, Strict: true, Form: "slash", Route: "root-alias"})
+								c08Case(c, c08Replay{Kind: "c08", Depth: d, Names: names, State: st, Strict: true, Form: "dot-given-last", Route: "root"})
+							}
+						}
+						if c.R.States%11 == 0 || len(d) <= 2 {
+							ex := c08Extras[int(c.R.States/11)%len(c08Extras)]
+							if len(d) <= 2 {
+								ex = c08Extras[int(c.R.States)%len(c08Extras)]
+							}
+							if roots != 1 && strings.Contains(ex, "massive") {
+								ex = "yaml,noiter" // with several roots the massive option may report any differing root
+							}
+							for _, strict := range []bool{false, true} {
+								c08Case(c, c08Replay{Kind: "c08", Depth: d, Names: names, State: st, Strict: strict, Form: "abs", Route: "md", Extra: ex})
+								if roots == 1 {
+									c08Case(c, c08Replay{Kind: "c08", Depth: d, Names: names, State: st, Strict: strict, Form: "abs", Route: "root", Extra: ex})
+								}
 							}
 						}
 						// leaf kinds: the same state with every childless node path present as a regular file
